@@ -76,6 +76,15 @@ def run(ctx):
         if i % 3 == 2:
             opts += ['--timeout-cc', '0.5']
         jobs.append(dict(text=text, opts=opts, cmd=[e2e.TOKPRED, 'all', 'keep'], env={}, timeout=240, mode='exit1', which=which))
+    # the DEFAULT time limit under every way of configuring the comparison (it is derived after the match strings were validated)
+    for i, extra in enumerate([['--match-err', 'error'], ['--match-out', 'bug'], ['--match-err', 'error', '--match-out', 'bug'], ['--ignore-out'],
+                               ['--ignore-err', '--match-out', 'bug']][:5 if ctx.thorough else 3]):
+        which = [PAIRS[i % 2]]
+        a_, b_ = which[0]
+        # the guard of the fault comes first, so that it is erased while the fault is still there: a faulty candidate is certain
+        text = '(set-logic ALL)\n' + ''.join(f'(assert {x})\n' for x in [b_, 'pad0', 'pad1', 'keep', a_, 'pad2']) + '(check-sat)\n'
+        jobs.append(dict(text=text, opts=['--strategy', ['ddmin', 'hierarchical', 'hybrid'][i % 3], '-j', str(1 + i % 2)] + extra + ['--disable-all', '--erase-node'],
+                         cmd=[FAULTY, 'err1'], env={}, timeout=150, mode='err1', which=which))
     # mirror case: the golden run itself hangs (explicit timeout); candidates that die quickly must be rejected
     for i in range(4 if ctx.thorough else 1):
         text = make_input(rng, [PAIRS[2]])
